@@ -4,23 +4,23 @@
 # (same result as the baseline: only functions::env_var_functions fails) and that its demo
 # passes without / fails with the change.  Results are appended to <out-log>.
 LOG=$1; shift
-VW=/tmp/vw
+VW=${VW:-/tmp/vw}
 export CARGO_NET_OFFLINE=true
 if [ ! -d $VW ]; then git -C /repo worktree add --detach $VW HEAD >/dev/null 2>&1; fi
 cd $VW && git checkout -q --detach $(git -C /repo rev-parse HEAD) && git checkout -- .
 cargo build --offline >/dev/null 2>&1
-cp target/debug/just /tmp/vw-just-orig
+cp target/debug/just $VW-just-orig
 for d in "$@"; do
   cd $VW && git checkout -- .
   name=$(basename $(dirname $d))-$(basename $d)
   if ! git apply $d/patch.diff; then echo "$name APPLY-FAILED" >> $LOG; continue; fi
-  if ! cargo build --offline >/tmp/vw-build.log 2>&1; then echo "$name BUILD-FAILED" >> $LOG; continue; fi
-  cp target/debug/just /tmp/vw-just-mut
-  cargo test --workspace --no-fail-fast --offline >/tmp/vw-test.log 2>&1
-  failed=$(grep -E "^test .* FAILED$" /tmp/vw-test.log | sort -u | tr '\n' ' ')
-  passed=$(grep -E "^test result:" /tmp/vw-test.log | awk '{s+=$4} END {print s}')
-  bash $d/demo.sh /tmp/vw-just-orig >/tmp/vw-demo-orig.log 2>&1; ro=$?
-  bash $d/demo.sh /tmp/vw-just-mut >/tmp/vw-demo-mut.log 2>&1; rm=$?
+  if ! cargo build --offline >$VW-build.log 2>&1; then echo "$name BUILD-FAILED" >> $LOG; continue; fi
+  cp target/debug/just $VW-just-mut
+  cargo test --workspace --no-fail-fast --offline >$VW-test.log 2>&1
+  failed=$(grep -E "^test .* FAILED$" $VW-test.log | sort -u | tr '\n' ' ')
+  passed=$(grep -E "^test result:" $VW-test.log | awk '{s+=$4} END {print s}')
+  bash $d/demo.sh $VW-just-orig >$VW-demo-orig.log 2>&1; ro=$?
+  bash $d/demo.sh $VW-just-mut >$VW-demo-mut.log 2>&1; rm=$?
   echo "$name passed=$passed failed=[$failed] demo_orig=$ro demo_mut=$rm" >> $LOG
 done
 cd $VW && git checkout -- .
